@@ -50,10 +50,11 @@ PROPS = {
             T("TestMetamorphic", (3, 5000), (3, 200000)),
             T("TestConcurrentCallers", (2, 3000), (2, 60000)),
             T("TestConcurrentHammer", (4, 150), (8, 3000)),
+            T("TestTickingClock", (4, 150), (8, 3000)),
             T("TestBlockingAcquire", (4, 400), (4, 8000)),
         ],
         fuzz=[dict(name="FuzzHistory", time="120s")],
-        rule="rapid-generated histories of permit requests on a virtual stopwatch (boundary-biased instants, permit counts up to 3x max, max waits aimed at the refusal threshold); non-trivial = the history contains a wait > 0 AND (a refusal followed by a grant, or an idle gap of >= 1 unit while permits were owed, or a request exactly on a slot/period boundary); metamorphic cases count when a refusal was deleted or a k-permit request was split; concurrent rounds count when grants and refusals raced (TestConcurrentCallers: 2..7 goroutines per round, up to 5 rounds; TestConcurrentHammer: 3..8 persistent workers released by a spin barrier for 50..300 rounds per case, each round linearized against the model; all limiter constructors incl. Smooth(n, period) and the builder-less forms); blocking cases when the predicted wait was non-zero or a refusal; distinct = hash of the abstracted op string (advance class, op, permits, granted/waited/refused)",
+        rule="(TestTickingClock: 2..5 concurrent callers per round against a clock that advances with every reading by a step from a drawn pattern {0, 1, a quarter, a half, one less than, exactly one slot / period}, some readings followed by a pause; the readings in hand-out order are the instants of a serial order: some permutation of the round's requests applied to the model at those instants gives the observed responses; non-trivial = a round whose readings span a slot / period boundary) rapid-generated histories of permit requests on a virtual stopwatch (boundary-biased instants, permit counts up to 3x max, max waits aimed at the refusal threshold); non-trivial = the history contains a wait > 0 AND (a refusal followed by a grant, or an idle gap of >= 1 unit while permits were owed, or a request exactly on a slot/period boundary); metamorphic cases count when a refusal was deleted or a k-permit request was split; concurrent rounds count when grants and refusals raced (TestConcurrentCallers: 2..7 goroutines per round, up to 5 rounds; TestConcurrentHammer: 3..8 persistent workers released by a spin barrier for 50..300 rounds per case, each round linearized against the model; all limiter constructors incl. Smooth(n, period) and the builder-less forms); blocking cases when the predicted wait was non-zero or a refusal; distinct = hash of the abstracted op string (advance class, op, permits, granted/waited/refused)",
         assumptions=[
             "virtual stopwatch injected through ratelimiter.VerifSetStopwatch (build tag verif)",
             "permit counts >= 1, max wait >= 0, interval/period >= 1ns; histories short enough that int64 nanoseconds do not overflow",
